@@ -14,6 +14,5 @@ import CG.Proofs.Lemmas.C04Step
 #print axioms CG.C04.Table.writers_covered
 #print axioms CG.C04.Table.cached_subset_cleared
 #print axioms CG.C04.Table.no_reader_in_mutator
-#print axioms CG.C04.Table.modelled_fields_cleared
 #print axioms CG.C04.stepM_eq_step_wf
 #print axioms CG.C04.runCalls_graph_run
